@@ -3,6 +3,7 @@
 package torrent
 
 import (
+	"net"
 	"time"
 )
 
@@ -53,4 +54,27 @@ func (v *VLoop) PeerCiphers() []int {
 		out = append(out, int(pe.EncryptionCipher))
 	}
 	return out
+}
+
+// VConnState is the torrent's connection bookkeeping.
+type VConnState struct {
+	Addrs, OutHandshakes, OutPeers, InHandshakes, InPeers int
+	Running                                               bool
+}
+
+func (v *VLoop) ConnState() VConnState {
+	t := v.T
+	st := t.status()
+	return VConnState{Addrs: t.addrList.Len(), OutHandshakes: len(t.outgoingHandshakers), OutPeers: len(t.outgoingPeers),
+		InHandshakes: len(t.incomingHandshakers), InPeers: len(t.incomingPeers), Running: st != Stopped && st != Stopping}
+}
+
+// HasIncomingPeerFrom tells whether an established incoming peer has this address.
+func (v *VLoop) HasIncomingPeerFrom(ip net.IP) bool {
+	for pe := range v.T.incomingPeers {
+		if pe.Addr().IP.Equal(ip) {
+			return true
+		}
+	}
+	return false
 }
